@@ -292,6 +292,14 @@ def step (s : S) (ws0 : List String) : S × String :=
     if s.db.wtxn.isSome then (s, "bad-op") else
     let db := if s.db.gcPaused then { (gcApply s.db s.db.gcDead) with gcDead := [], gcPaused := false } else s.db
     ({ s with db := { (gcApply db (gcScan db)) with gcTrig := false } }, "ok")
+  | ["gcwhile"] =>
+    match s.db.wtxn with
+    | some es =>
+      if (getT es 0).locked || !(getT es 1).locked || s.db.gcPaused then (s, "bad-op") else
+      let dead := gcScan s.db
+      if dead.any (·.1 = 1) then (s, "bad-op") else
+      ({ s with db := { (gcApply s.db dead) with gcTrig := false } }, "ok")
+    | none => (s, "bad-op")
   | ["gcidle"] =>
     if s.db.wtxn.isSome then (s, "bad-op") else
     let paused := s.db.gcPaused
